@@ -53,3 +53,5 @@ pub mod euler;
 pub use euler::*;
 pub mod gcdred;
 pub use gcdred::*;
+pub mod chainlong;
+pub use chainlong::*;
